@@ -4,7 +4,7 @@ HEADER = """C04 — Breadth-first search finds a shortest path iff one exists.
    arbitrary pure filter; PureCb covers Method::Empty, ForEach(recorder) and Filter(pure f).
    The generic theorems are stated for every worklist kind k <> KDfs (bfs and both pfs modes); the queue
    hypothesis of coq/proofs/Worklist.v is discharged by StdHeap.stdheap_qspec in SearchGlue.v."""
-REQUIRES = ["From Gdsl.Model Require Import Spec Callback PathApi SearchFind.", "From Gdsl.Proofs Require Import Worklist Bfs SearchGlue PathApiProof SearchFindProof."]
+REQUIRES = ["From Gdsl.Model Require Import Spec Callback PathApi SearchFind.", "From Gdsl.Proofs Require Import NodeD Glue Worklist Bfs SearchGlue PathApiProof SearchFindProof."]
 PINS = [
  ("c04_path_sound", "wlq_path_sound", "a returned path starts at the root, ends at the node carrying the target key, is made of accepted stored edges (with their stored values) joined end to start"),
  ("c04_path_complete", "wlq_path_complete", "None only if no node with the target key is reachable through accepted edges"),
@@ -28,4 +28,33 @@ Example c04_nonvacuous :
   snd (search_path Nat.eqb cb Nat.leb KBfs DIn 100 h tt 3 (Some 1) false) = RPath [(3, 2, 14); (2, 1, 13)] /\\
   snd (search_path Nat.eqb cb Nat.leb KBfs DOut 100 h tt 3 (Some 1) false) = RNone nat.
 Proof. vm_compute. auto. Qed.
+
+(* the hypotheses shared by the theorems of C04-C10 (Wf, KeysInj, PureCb, root allocated, target not the root's key) are
+   PROVED for a concrete history-built heap — Wf and KeysInj through the C01 history theorem, not by inspection — and
+   c04_path_sound is APPLIED to the run (its conclusion is obtained from the theorem, not recomputed) *)
+Definition ops4 : list (op nat nat nat) :=
+    [ONew 0 0; ONew 1 0; ONew 2 0; ONew 3 0; OConnect 0 1 10; OConnect 0 0 11; OConnect 0 2 12; OConnect 1 2 13; OConnect 2 3 14; OConnect 2 0 15].
+Lemma keqb_nat : KeqbSpec Nat.eqb. Proof. intros a b. apply Nat.eqb_eq. Qed.
+Example c04_theorem_instantiated :
+  let h := fst (run_d Nat.eqb ops4) in
+  let cb := (fun (c : unit) (h' : heap nat nat nat) (_ : edge nat) => (c, h', true)) in
+  (Wf h /\\ KeysInj h /\\ PureCb h cb (@accept_all nat) /\\ 0 < size h /\\ keyof h 0 <> Some 3) /\\
+  exists v, keyof h v = Some 3 /\\ IsPath h DOut (@accept_all nat) 0 [(0, 2, 12); (2, 3, 14)] v.
+Proof.
+  cbv zeta.
+  assert (Hfresh : KeysFresh ops4) by (unfold KeysFresh; cbn; repeat constructor; cbn; intuition congruence).
+  destruct (run_d_inv keqb_nat Hfresh) as [[Hm [Hwf Hinj]] _].
+  assert (Hpure : PureCb (fst (run_d Nat.eqb ops4)) (fun (c : unit) (h' : heap nat nat nat) (_ : edge nat) => (c, h', true)) (@accept_all nat))
+    by (intros c e; split; reflexivity).
+  assert (Hsz : 0 < size (fst (run_d Nat.eqb ops4))) by (vm_compute; repeat constructor).
+  assert (Hk : keyof (fst (run_d Nat.eqb ops4)) 0 <> Some 3) by (vm_compute; congruence).
+  split; [exact (conj Hwf (conj Hinj (conj Hpure (conj Hsz Hk))))|].
+  destruct (search_path Nat.eqb (fun (c : unit) (h' : heap nat nat nat) (_ : edge nat) => (c, h', true)) Nat.leb KBfs DOut 100 (fst (run_d Nat.eqb ops4)) tt 0 (Some 3) false) as [st r] eqn:Hrun.
+  assert (Hr : r = RPath [(0, 2, 12); (2, 3, 14)]).
+  { change r with (snd (st, r)). rewrite <- Hrun. vm_compute. reflexivity. }
+  subst r.
+  destruct (@wlq_path_sound _ _ _ _ keqb_nat _ _ _ Nat.leb _ Hwf Hinj Hpure DOut 0 Hsz tt KBfs 100 3 st _ ltac:(discriminate) Hk Hrun) as [v [Hv [Hp _]]].
+  exists v. split; assumption.
+Qed.
+Print Assumptions c04_theorem_instantiated.
 """
